@@ -89,6 +89,11 @@ package iavl
 //@ ghost tq.key $[]byte
 //@ ghost tq.val $[]byte
 //@ ghost tq.iterver Int
+// tq.err: the last versioned read with proof failed; pf.kind / pf.key: the proof operator built last
+// (1 = existence op iavl:v, 2 = absence op iavl:a) and the key it is for
+//@ ghost tq.err Bool
+//@ ghost pf.kind Int
+//@ ghost pf.key $[]byte
 
 //@ iface func (t Tree) Version() (r int64)
 //@   mode heap
@@ -102,8 +107,8 @@ package iavl
 //@   ensures tq.calls == old(tq.calls) + 1 && tq.ver == version && tq.key == key && tq.val == value
 //@ iface func (t Tree) GetVersionedWithProof(key []byte, version int64) (value []byte, proof *iavl.RangeProof, err error)
 //@   mode heap
-//@   modifies tq.calls, tq.ver, tq.key, tq.val
-//@   ensures tq.calls == old(tq.calls) + 1 && tq.ver == version && tq.key == key && tq.val == value
+//@   modifies tq.calls, tq.ver, tq.key, tq.val, tq.err
+//@   ensures tq.calls == old(tq.calls) + 1 && tq.ver == version && tq.key == key && tq.val == value && tq.err == (err != nil)
 
 //@ func (st *Store) VersionExists(version int64) (r bool)
 //@   props C14
@@ -137,6 +142,11 @@ package iavl
 //@   ensures [height] len(req.Data) > 0 && (req.Path == "/key" || req.Path == "/subspace") ==> res.Height == ite(req.Height != 0, req.Height, ite(tree.saved[tree.cur - 1], tree.cur - 1, tree.cur))
 //@   ensures [key-at-height] len(req.Data) > 0 && req.Path == "/key" && tree.saved[res.Height] ==> tq.calls == old(tq.calls) + 1 && tq.ver == res.Height && tq.key == req.Data
 //@   ensures [value] len(req.Data) > 0 && req.Path == "/key" && tree.saved[res.Height] ==> (res.Value == tq.val || len(res.Value) == 0) && (!req.Prove ==> res.Value == tq.val)
+// C14: with a proof requested, the answer carries the value the tree returned, and the proof operator says what the
+// tree said: an existence operator for the key exactly when the key is present (a present key may hold an EMPTY value),
+// an absence operator exactly when it is not - the other operator verifies against no app hash (seed C14c)
+//@   ensures [proved-value] len(req.Data) > 0 && req.Path == "/key" && tree.saved[res.Height] && req.Prove && !tq.err ==> res.Value == tq.val
+//@   ensures [proof-op] len(req.Data) > 0 && req.Path == "/key" && tree.saved[res.Height] && req.Prove && !tq.err ==> pf.key == req.Data && pf.kind == ite(isnil(tq.val), 2, 1) && !isnil(res.Proof)
 //@   ensures [unloadable] len(req.Data) > 0 && req.Path == "/key" && !tree.saved[res.Height] ==> tq.calls == old(tq.calls) && len(res.Value) == 0 && isnil(res.Proof)
 //@   ensures [subspace-at-height@C14] len(req.Data) > 0 && req.Path == "/subspace" ==> tq.iterver == res.Height
 // C11 (Query never changes state): the tree's version state is untouched by a query
